@@ -468,6 +468,145 @@ def allocForTempPairsP (norm : String → String) (existing : List String) (coun
   (insertSetP (existing.map norm)).bind fun _ =>
     tempPairsLoopP norm (existing.length + 2 * count + 2) count 0
 
+/-! ## 4b. The remaining hash maps of the anchored files, as lookup-only client code -/
+
+/-- One `TypeEntry`: the registry id it encodes and the table indices of the types it refers to. -/
+structure TEntry where
+  tid : Nat
+  refs : List Nat
+deriving Repr, DecidableEq
+
+mutual
+/-- `type_index` (encoder/types.rs:78-101): look up `type_map`; otherwise reserve the next slot
+(`type_map.insert(type_id, idx)` *before* descending, so recursive types terminate), encode the
+entry — which calls `type_index` for every referenced type (`children`) — and fill the slot. -/
+def typeIndexP (children : Nat → List Nat) :
+    Nat → Nat → List TEntry → Prog Unit Nat Nat (Option (Nat × List TEntry))
+  | 0, _, _ => .ret none
+  | fuel + 1, tid, types =>
+    .get () tid fun
+      | some idx => .ret (some (idx, types))
+      | none =>
+        let idx := types.length
+        .insert () tid idx fun _ =>
+          (typeIndexListP children fuel (children tid) (types ++ [⟨tid, []⟩])).bind fun
+            | none => .ret none
+            | some (cidx, types') => .ret (some (idx, types'.set idx ⟨tid, cidx⟩))
+termination_by fuel _ _ => (fuel, 0)
+
+def typeIndexListP (children : Nat → List Nat) :
+    Nat → List Nat → List TEntry → Prog Unit Nat Nat (Option (List Nat × List TEntry))
+  | _, [], types => .ret (some ([], types))
+  | fuel, c :: cs, types =>
+    (typeIndexP children fuel c types).bind fun
+      | none => .ret none
+      | some (i, types') =>
+        (typeIndexListP children fuel cs types').bind fun
+          | none => .ret none
+          | some (is, types'') => .ret (some (i :: is, types''))
+termination_by fuel cs _ => (fuel, cs.length + 1)
+end
+
+/-- `collect_decl_types`: `type_index` for every declared type id, in declaration order. -/
+def collectTypesP (children : Nat → List Nat) (fuel : Nat) :
+    List Nat → List TEntry → Prog Unit Nat Nat (Option (List TEntry))
+  | [], types => .ret (some types)
+  | t :: ts, types =>
+    (typeIndexP children fuel t types).bind fun
+      | none => .ret none
+      | some (_, types') => collectTypesP children fuel ts types'
+
+/-- A `ValueRef`: location tag, owner id, offset, path of field names / index lists. -/
+structure VRef where
+  loc : Nat
+  owner : Nat
+  offset : Nat
+  path : List (String ⊕ List Int)
+deriving DecidableEq
+
+/-- Keys of the encoder's reference and string maps, in one type. -/
+inductive EKey
+  | ref (r : VRef)
+  | str (s : String)
+  | file (id : Nat)
+deriving DecidableEq
+
+inductive EMap | refMap | strings | debugStrings | filePaths
+deriving DecidableEq
+
+/-- Encoder state that is *not* a hash map: the emitted tables. -/
+structure EncTables where
+  refEntries : List (Nat × Nat × Nat × List (Nat ⊕ List Int)) := []
+  strings : List String := []
+  debugStrings : List String := []
+
+/-- `StringInterner::intern` on the `strings` / `debug_strings` interner of the encoder. -/
+def internStrP (m : EMap) (entries : List String) (v : String) : Prog EMap EKey Nat (Nat × List String) :=
+  .get m (.str v) fun
+    | some idx => .ret (idx, entries)
+    | none => .insert m (.str v) entries.length fun _ => .ret (entries.length, entries ++ [v])
+
+/-- Field segments intern their name (`ref_index_for`, refs.rs:113-124). -/
+def segmentsP : List (String ⊕ List Int) → List String →
+    Prog EMap EKey Nat (List (Nat ⊕ List Int) × List String)
+  | [], strs => .ret ([], strs)
+  | .inl name :: rest, strs =>
+    (internStrP .strings strs name).bind fun (i, strs') =>
+    (segmentsP rest strs').bind fun (segs, strs'') => .ret (.inl i :: segs, strs'')
+  | .inr idx :: rest, strs =>
+    (segmentsP rest strs).bind fun (segs, strs') => .ret (.inr idx :: segs, strs')
+
+/-- `ref_index_for` (refs.rs:93-134). -/
+def refIndexForP (t : EncTables) (r : VRef) : Prog EMap EKey Nat (Nat × EncTables) :=
+  .get .refMap (.ref r) fun
+    | some idx => .ret (idx, t)
+    | none =>
+      (segmentsP r.path t.strings).bind fun (segs, strs) =>
+        let idx := t.refEntries.length
+        .insert .refMap (.ref r) idx fun _ =>
+          .ret (idx, { t with refEntries := t.refEntries ++ [(r.loc, r.owner, r.offset, segs)], strings := strs })
+
+/-- `file_path_index` (debug.rs:6-21): cache in `file_path_indices`, label interned in `debug_strings`. -/
+def filePathIndexP (label : Nat → String) (t : EncTables) (fileId : Nat) : Prog EMap EKey Nat (Nat × EncTables) :=
+  .get .filePaths (.file fileId) fun
+    | some idx => .ret (idx, t)
+    | none =>
+      (internStrP .debugStrings t.debugStrings (label fileId)).bind fun (idx, ds) =>
+        .insert .filePaths (.file fileId) idx fun _ => .ret (idx, { t with debugStrings := ds })
+
+/-- A mixed sequence of encoder requests. -/
+inductive EncReq
+  | ref (r : VRef)
+  | str (s : String)
+  | file (id : Nat)
+
+def encRequestsP (label : Nat → String) : List EncReq → EncTables → Prog EMap EKey Nat (List Nat × EncTables)
+  | [], t => .ret ([], t)
+  | q :: qs, t =>
+    (match q with
+      | .ref r => refIndexForP t r
+      | .str s => (internStrP .strings t.strings s).bind fun (i, strs) => .ret (i, { t with strings := strs })
+      | .file id => filePathIndexP label t id).bind fun (i, t') =>
+    (encRequestsP label qs t').bind fun (is, t'') => .ret (i :: is, t'')
+
+/-- harness/build.rs:90-176: `if !names.insert(key) { return Err(duplicate) }` over the lowered
+definitions: the first name whose normalised key was already present. -/
+def firstDuplicateP (norm : String → String) : List String → Prog Unit String Unit (Option String)
+  | [] => .ret none
+  | n :: ns => .insert () (norm n) () fun
+    | some _ => .ret (some n)
+    | none => firstDuplicateP norm ns
+
+/-- io.rs `IoInterface::{read,write}` on hierarchical addresses (`hierarchical` map). -/
+inductive HierOp
+  | write (key : List Nat) (v : Int)
+  | read (key : List Nat)
+
+def hierP : List HierOp → Prog Unit (List Nat) Int (List (Option Int))
+  | [] => .ret []
+  | .write k v :: ops => .insert () k v fun _ => hierP ops
+  | .read k :: ops => .get () k fun o => (hierP ops).bind fun rest => .ret (o :: rest)
+
 /-! ## 5. Classification of the operations found on hash-typed bindings -/
 
 /-- Hasher of a binding: `std` is `RandomState` (per-process random), `fx` is `rustc_hash`
